@@ -535,6 +535,7 @@ func cmdCache(args []string) int {
 		concurrentNewDB(20**stress, addViol)
 		cacheHugeSQL(addViol)
 		cacheTypedNilContext(addViol)
+		concurrentPrepare(20**stress, addViol)
 	}
 	for i := 0; i < *stress; i++ {
 		cacheStress(r.fork(), addViol)
@@ -544,6 +545,7 @@ func cmdCache(args []string) int {
 			heldContext(r.fork(), addViol)
 			dropDBAfterTX(r.fork(), addViol)
 			cacheOtherStatements(r.fork(), addViol)
+			cacheBuildThenRun(r.fork(), addViol)
 		}
 		st.Stress++
 	}
@@ -749,7 +751,7 @@ func cacheStress(r *rng, add func(violation)) {
 					viol("C20", "driver-saw-a-deadline-the-caller-did-not-set", fmt.Sprintf("db %d stmt %d", di, ev.Stmt))
 				}
 				if d := shapeMismatch(ev); d != "" {
-					for _, p := range []string{"C09", "C01", "C16", "C17", "C04"} {
+					for _, p := range []string{"C09", "C01", "C16", "C17", "C04", "C03"} {
 						viol(p, "executed-sql-was-generated-for-other-arguments", d)
 					}
 				}
@@ -976,6 +978,71 @@ func dropDBAfterTX(r *rng, add func(violation)) {
 	runtime.KeepAlive(stmt)
 	sqldb.Close()
 	dropFakeDB(f.name)
+}
+
+// cacheBuildThenRun: Queries are built first and run later (the cache is consulted when a Query is run, with
+// what is cached then): two Queries of one shape built before either is run, and a Query built before another
+// call has prepared and cached its SQL, cause one driver prepare in all.
+func cacheBuildThenRun(r *rng, add func(violation)) {
+	viol := func(detail string) {
+		add(violation{"C09", "unchanged-query-prepared-again", hx("Queries built first, run later"), detail})
+	}
+	cacheStmtCounter++
+	stmt := sqlair.MustPrepare(fmt.Sprintf("SELECT &Person.* FROM person WHERE id = $Person.id -- btr %d", cacheStmtCounter), Person{})
+	sqldb, f := openFake()
+	sqldb.SetMaxOpenConns(1)
+	defer func() { sqldb.Close(); dropFakeDB(f.name) }()
+	db := sqlair.NewDB(sqldb)
+	var p Person
+	q1 := db.Query(context.Background(), stmt, Person{ID: 1})
+	q2 := db.Query(context.Background(), stmt, Person{ID: 2})
+	if r.chance(1, 2) {
+		db.Query(context.Background(), stmt, Person{ID: 3}).Get(&p)
+	}
+	q1.Get(&p)
+	q2.Get(&p)
+	prepares := 0
+	for _, ev := range f.log() {
+		if ev.Kind == "prepare" {
+			prepares++
+		}
+	}
+	if prepares != 1 {
+		viol(fmt.Sprintf("%d driver prepares of one unchanged SQL text on one connection", prepares))
+	}
+}
+
+// concurrentPrepare: Statements are created from several goroutines at once: their cache ids are distinct.
+func concurrentPrepare(rounds int, add func(violation)) {
+	sqldb, f := openFake()
+	defer func() { sqldb.Close(); dropFakeDB(f.name) }()
+	db := sqlair.NewDB(sqldb)
+	for round := 0; round < rounds; round++ {
+		const n = 16
+		stmts := make([]*sqlair.Statement, n)
+		var wg sync.WaitGroup
+		start := make(chan struct{})
+		for i := 0; i < n; i++ {
+			wg.Add(1)
+			go func(i int) {
+				defer wg.Done()
+				<-start
+				stmts[i] = sqlair.MustPrepare(fmt.Sprintf("SELECT &Person.* FROM person WHERE id = $Person.id -- cp %d", i%4), Person{})
+			}(i)
+		}
+		close(start)
+		wg.Wait()
+		seen := map[uint64]int{}
+		for i, st := range stmts {
+			sid, _ := sqlair.VerifIDs(st, db)
+			if j, dup := seen[sid]; dup {
+				add(violation{"C11", "two-statements-with-one-cache-id", hx("MustPrepare from 16 goroutines at once"), fmt.Sprintf("round %d: statements %d and %d have cache id %d", round, j, i, sid)})
+				add(violation{"C09", "two-statements-with-one-cache-id", hx("MustPrepare from 16 goroutines at once"), fmt.Sprintf("round %d: statements %d and %d have cache id %d", round, j, i, sid)})
+				return
+			}
+			seen[sid] = i
+		}
+	}
 }
 
 // cacheOtherStatements: between two runs of a cached Statement other statements are run on the same DB
